@@ -94,6 +94,19 @@ class err_handler(object):
         self.seg_node_added = False
         self.cur_ele_node = None
         self.cur_line = 0
+        self.touched = []
+
+    def _touch(self, node):
+        if node is not None and not any(node is x for x in self.touched):
+            self.touched.append(node)
+
+    def pop_touched(self):
+        """
+        @return: the error nodes that received an error since the last call, in order
+        """
+        res = self.touched
+        self.touched = []
+        return res
 
     def accept(self, visitor):
         """
@@ -231,6 +244,7 @@ class err_handler(object):
         sout += 'ISA:%s - %s' % (err_cde, err_str)
         logger.error(sout)
         self.cur_isa_node.add_error(err_cde, err_str)
+        self._touch(self.cur_isa_node)
 
     def gs_error(self, err_cde, err_str):
         """
@@ -244,6 +258,7 @@ class err_handler(object):
         sout += 'GS:%s - %s' % (err_cde, err_str)
         logger.error(sout)
         self.cur_gs_node.add_error(err_cde, err_str)
+        self._touch(self.cur_gs_node)
 
     def st_error(self, err_cde, err_str):
         """
@@ -257,6 +272,7 @@ class err_handler(object):
         sout += 'ST:%s - %s' % (err_cde, err_str)
         logger.error(sout)
         self.cur_st_node.add_error(err_cde, err_str)
+        self._touch(self.cur_st_node)
 
     def seg_error(self, err_cde, err_str, err_value=None, src_line=None):
         """
@@ -269,6 +285,7 @@ class err_handler(object):
         try:
             self._add_cur_seg()
             self.cur_seg_node.add_error(err_cde, err_str, err_value)
+            self._touch(self.cur_seg_node)
         except:
             sout += 'No current segment in error_handler. '
         if src_line:
@@ -306,6 +323,7 @@ class err_handler(object):
         self._add_cur_ele()
         self.cur_ele_node.add_error(
             err_cde, err_str, bad_value)  # , pos, data_ele)
+        self._touch(self.cur_seg_node)
         sout = ''
         sout += 'Line:%i ' % (self.cur_seg_node.get_cur_line())
         sout += 'ELE:%s - %s' % (err_cde, err_str)
